@@ -134,6 +134,16 @@ theorem mostCommonType_bucket_perm {a b : List (Option SV)} (h : a.Perm b) :
   rw [(mostCommonType_spec a).2.1, (mostCommonType_spec b).2.1, ht]
   exact ofType_perm _ h
 
+theorem ofType_map_some (t : Nat) (hs : List SV) :
+    ofType t (hs.map some) = hs.filter (fun v => decide (v.type = t)) := by
+  induction hs with
+  | nil => rfl
+  | cons a as ih =>
+    have : ofType t ((a :: as).map some) = ofType t [some a] ++ ofType t (as.map some) := by
+      rw [← ofType_append]; rfl
+    rw [this, ih, ofType_single_some, List.filter_cons]
+    by_cases h : a.type = t <;> simp [h]
+
 theorem mem_ofType {t : Nat} {vs : List (Option SV)} {v : SV} :
     v ∈ ofType t vs ↔ some v ∈ vs ∧ v.type = t := by
   simp only [ofType, List.mem_filterMap]
